@@ -26,6 +26,14 @@ def int_spellings(ty):
         ("literal-led-mul", "2 * K", 20, c), ("type-min", f"{ty}::MIN", lo, []), ("type-max", f"{ty}::MAX", hi, []), ("type-max-minus", f"{ty}::MAX - 1", hi - 1, []),
         ("type-max-div", f"{ty}::MAX / 2", hi // 2, []), ("fn-call", "bound_fn()", 12, [f"const fn bound_fn() -> {ty} {{ 12 }}"]), ("fn-call-named-f", "f()", 12, [f"const fn f() -> {ty} {{ 12 }}"]), ("fn-call-arg", "g(3, 4)", 7, [f"const fn g(a: {ty}, b: {ty}) -> {ty} {{ a + b }}"]),
         ("module-path", "m::K", 13, [f"mod m {{ pub const K: {ty} = 13; }}"]), ("assoc-const", "Cfg::LIMIT", 14, [f"struct Cfg; impl Cfg {{ const LIMIT: {ty} = 14; }}"]),
+        # user constants named like the type's own limits / like items the generated code uses
+        ("const-named-MAX", "MAX", 30, [f"const MAX: {ty} = 30;"]), ("const-named-MIN", "MIN", 3, [f"const MIN: {ty} = 3;"]),
+        ("module-const-named-MAX", "limits::MAX", 31, [f"mod limits {{ pub const MAX: {ty} = 31; pub const MIN: {ty} = 2; }}"]),
+        ("module-const-named-MIN", "limits::MIN", 2, [f"mod limits {{ pub const MAX: {ty} = 31; pub const MIN: {ty} = 2; }}"]),
+        ("assoc-const-named-MAX", "Cfg::MAX", 32, [f"struct Cfg; impl Cfg {{ const MAX: {ty} = 32; const MIN: {ty} = 1; }}"]),
+        ("assoc-const-named-MIN", "Cfg::MIN", 1, [f"struct Cfg; impl Cfg {{ const MAX: {ty} = 32; const MIN: {ty} = 1; }}"]),
+        ("const-named-EPSILON-like", "DEFAULT", 33, [f"const DEFAULT: {ty} = 33;"]), ("const-named-like-type", "I32", 34, [f"const I32: {ty} = 34;"]),
+        ("other-type-MAX", "u8::MAX as " + ty if ty != "i8" else "i8::MAX", 255 if ty != "i8" else 127, []),
         ("cast", f"S as {ty}", 15, ["const S: u8 = 15;"]), ("if-expr", "if FLAG { 1 } else { 21 }", 21, ["const FLAG: bool = false;"]),
         ("index", "[4, 5, 6][1]", 5, []), ("tuple-field", "P.1", 17, [f"const P: (u8, {ty}) = (0, 17);"]), ("method-call", f"\"abcd\".len() as {ty}", 4, []),
         ("match-expr", "match 3u8 { 3 => 33, _ => 0 }", 33, []), ("min-plus-literal-led", f"2 + {ty}::MIN", lo + 2, []),
@@ -55,6 +63,10 @@ def float_spellings(ty):
         ("neg-infinity", f"{T}::NEG_INFINITY", -math.inf, []), ("infinity", f"{T}::INFINITY", math.inf, []),
         ("fn-call", "bound_fn()", F(3, 2), [f"const fn bound_fn() -> {ty} {{ 1.5 }}"]), ("negated-fn", "-bound_fn()", F(-3, 2), [f"const fn bound_fn() -> {ty} {{ 1.5 }}"]),
         ("module-path", "m::K", F(7, 2), [f"mod m {{ pub const K: {ty} = 3.5; }}"]), ("cast", f"S as {ty}", F(15), ["const S: u8 = 15;"]),
+        ("const-named-MAX", "MAX", F(30), [f"const MAX: {ty} = 30.0;"]), ("const-named-MIN", "MIN", F(-3), [f"const MIN: {ty} = -3.0;"]),
+        ("module-const-named-MAX", "limits::MAX", F(31), [f"mod limits {{ pub const MAX: {ty} = 31.0; }}"]), ("const-named-EPSILON", "EPSILON", F(1, 2), [f"const EPSILON: {ty} = 0.5;"]),
+        ("const-named-INFINITY", "INFINITY", F(9), [f"const INFINITY: {ty} = 9.0;"]), ("const-named-NAN", "NAN", F(4), [f"const NAN: {ty} = 4.0;"]),
+        ("assoc-const-named-MAX", "Cfg::MAX", F(32), [f"struct Cfg; impl Cfg {{ const MAX: {ty} = 32.0; }}"]),
         ("if-expr", "if FLAG { 1.0 } else { 21.0 }", F(21), ["const FLAG: bool = false;"]), ("block", "{ K }", F(5, 2), c), ("method", "K.abs()" if False else "(K)", F(5, 2), c),
     ]
     return out
@@ -65,7 +77,8 @@ def len_spellings():
     return [("literal", "3", 3, []), ("literal-underscore", "1_0", 10, []), ("literal-suffixed", "3usize", 3, []), ("literal-hex", "0x03", 3, []), ("const", "K", 3, c), ("paren-const", "(K)", 3, c),
             ("const-plus", "K + 1", 4, c), ("literal-led-plus", "1 + K", 4, c), ("literal-led-shift", "1 << 2", 4, []), ("type-min-plus", "usize::MIN + 2", 2, []),
             ("fn-call", "bound_fn()", 2, ["const fn bound_fn() -> usize { 2 }"]), ("method-call", "\"abc\".len()", 3, []), ("mul", "K * 2", 6, c), ("module-path", "m::N", 5, ["mod m { pub const N: usize = 5; }"]),
-            ("if-expr", "if FLAG { 1 } else { 4 }", 4, ["const FLAG: bool = false;"]), ("cast", "S as usize", 2, ["const S: u8 = 2;"])]
+            ("if-expr", "if FLAG { 1 } else { 4 }", 4, ["const FLAG: bool = false;"]), ("cast", "S as usize", 2, ["const S: u8 = 2;"]),
+            ("const-named-MAX", "MAX", 4, ["const MAX: usize = 4;"]), ("const-named-MIN", "MIN", 2, ["const MIN: usize = 2;"]), ("module-const-named-MAX", "limits::MAX", 5, ["mod limits { pub const MAX: usize = 5; }"])]
 
 
 def build(tier, seed):
@@ -87,7 +100,7 @@ def build(tier, seed):
             if not (lo <= den <= hi):
                 continue
             for ki, kind in enumerate(KINDS):
-                if (si + ki + ti) % (2 if tier == "quick" else 1) != 0 and cls not in ("negated-const", "literal-led-minus", "negative-literal-plus-const"):
+                if (si + ki + ti) % (2 if tier == "quick" else 1) != 0 and cls not in ("negated-const", "literal-led-minus", "negative-literal-plus-const") and "named" not in cls:
                     continue
                 d = new(inner_int(ty), "int:" + cls)
                 d.support += sup
@@ -99,7 +112,7 @@ def build(tier, seed):
     for ti, ty in enumerate(FLOAT_TYPES):
         for si, (cls, text, ex, sup) in enumerate(float_spellings(ty)):
             for ki, kind in enumerate(KINDS):
-                if (si + ki + ti) % (2 if tier == "quick" else 1) != 0 and cls not in ("negated-const", "literal-led-minus", "negative-literal-plus-const"):
+                if (si + ki + ti) % (2 if tier == "quick" else 1) != 0 and cls not in ("negated-const", "literal-led-minus", "negative-literal-plus-const") and "named" not in cls:
                     continue
                 d = new(inner_float(ty), "float:" + cls)
                 d.support += sup
